@@ -92,6 +92,11 @@ func (fr *Frame) goEnsures(in *ssa.Go, st, pre *State, pc Term) {
 		if strings.Contains(e.Src, "old(") || strings.Contains(e.Src, "result") {
 			continue
 		}
+		// clauses about names that exist only inside the spawned function
+		// (its own "let" names) say nothing to the parent
+		if _, err := env.evalBool(e.E); err != nil {
+			continue
+		}
 		vc.assumeClause(pc, env, e)
 		used = true
 	}
